@@ -40,11 +40,19 @@ def drain(agen, bound):
             raise RuntimeError('receive_data suspended')
 
 
-def expected_of(bodies):
-    """Reference: each record alone through parse_or_ignore -> serialized frame or None."""
+UNDECODABLE_BY_CONSTRUCTION = ('short', 'zero-length', 'unknown-type', 'ignore-junk', 'bad-error-code')
+
+
+def expected_of(bodies, kinds=None):
+    """Reference: each record alone through parse_or_ignore -> serialized frame or None.  Records whose generator
+    makes them undecodable by construction (shorter than a header, unknown type, mandatory fields missing, undefined
+    error code) must yield no frame whatever the decoder itself thinks of them."""
     from rsocket.frame import parse_or_ignore
     out = []
-    for b in bodies:
+    for i, b in enumerate(bodies):
+        if kinds is not None and kinds[i] in UNDECODABLE_BY_CONSTRUCTION:
+            out.append('invalid')
+            continue
         try:
             f = parse_or_ignore(b)
             out.append(None if f is None else f.serialize())
@@ -227,7 +235,7 @@ def run_case(gen, idx, rng, tier):
         bodies = [b for _, b in recs]
         kinds = [k for k, _ in recs]
         stream = gen_frames.to_stream(bodies)
-        expected = expected_of(bodies)
+        expected = expected_of(bodies, kinds)
         boundaries = []
         off = 0
         for b in bodies:
